@@ -333,7 +333,8 @@ pub fn run_codegen(dir: &Path) -> (Value, Option<proc_macro2::TokenStream>) {
     stage(
         || crate::load_locales::load_locales(),
         |ts| {
-            let s = ts.to_string();
+            // tracked file paths carry the worker's scratch directory (pid): normalise before hashing
+            let s = ts.to_string().replace(&*dir.to_string_lossy(), "<DIR>");
             json!({"digest": format!("{:016x}", fnv(s.as_bytes())), "len": s.len()})
         },
     )
